@@ -80,6 +80,7 @@ struct C09Stats {
     runs: AtomicU64,
     points: AtomicU64,
     pairs: AtomicU64,
+    reads: AtomicU64,
 }
 
 fn c09_scenario(rep: &Reporter, sc: &Scenario, tier: Tier, stats: &C09Stats, sample: &std::sync::Mutex<Vec<Value>>) {
@@ -255,13 +256,79 @@ fn c09_scenario(rep: &Reporter, sc: &Scenario, tier: Tier, stats: &C09Stats, sam
             rep.report("go_after_interruptions_scores_differently_from_fresh_engine".to_string(), case(json!({"score": format!("{:?}", again.score), "fresh": format!("{:?}", fresh1.score)})));
         }
     });
+    // (5) messages that arrive at a clock read instead of a poll, one second or more into the search.
+    // Every clock read of the search thread is the other place where it can be observed (and where
+    // product code may look at the command channel): park there, deliver the stop, go on.
+    let late = Clock::Rate { ns_per_node: 1000, jumps: vec![(1, Duration::from_secs(2))] };
+    for scaled in [false, true] {
+        let poll = if scaled { Some((1, n2)) } else { None };
+        let go_line = format!("go depth {}", sc.depth);
+        let reads = {
+            let mut s = Session::new(false);
+            s.line(&pos_line);
+            let o = run_go(&mut s, &go_line, Plan { poll, clock: late.clone(), gates: vec![] }, &none);
+            s.quit();
+            if o.problem.is_some() || o.best != best_j[sc.depth] {
+                rep.report("late_clock_changes_depth_limited_search".to_string(), json!({"kind": "interrupt_at_read", "position": pos_line, "depth": sc.depth, "scaled_polls": scaled, "read_index": 0, "detail": {"problem": o.problem, "best": o.best, "expected": best_j[sc.depth]}}));
+                continue;
+            }
+            o.obs.counters.clock_reads
+        };
+        let stride = if scaled && tier == Tier::Quick { 4 } else { 1 };
+        let cap = if tier == Tier::Quick { 600 } else { 20_000 };
+        let rs: Vec<u64> = (1..=reads).filter(|r| (r - 1) % stride == 0 || *r == reads).take(cap).collect();
+        stats.reads.fetch_add(rs.len() as u64, Ordering::Relaxed);
+        par_map_fine(&rs, |&r| {
+            stats.runs.fetch_add(1, Ordering::Relaxed);
+            let case = |extra: Value| json!({"kind": "interrupt_at_read", "position": pos_line, "depth": sc.depth, "scaled_polls": scaled, "read_index": r, "detail": extra});
+            let mut s = Session::new(false);
+            s.line(&pos_line);
+            let g = READ_GATE + r;
+            let out = run_go(&mut s, &go_line, Plan { poll, clock: late.clone(), gates: vec![g] }, &move |kk| if kk == g { vec![GateAction::Stop] } else { vec![] });
+            if let Some(pr) = &out.problem {
+                rep.report(format!("interrupted_search_gives_no_answer:StopAtRead:{}", short(pr)), case(json!({"problem": pr})));
+                s.quit();
+                return;
+            }
+            if out.obs.parked_at != vec![g] {
+                rep.machinery(format!("read gate {} not reached on {} (parked at {:?})", r, pos_line, out.obs.parked_at));
+            }
+            // the stop becomes visible at the first poll after the read
+            let want = if scaled { expected_best((out.obs.counters.nodes_at_read_park.unwrap_or(0) + 1).max(n2)) } else { best_j[sc.depth].clone() };
+            if out.n_best != 1 {
+                rep.report(format!("bestmove_count_after_interruption:StopAtRead:{}", out.n_best), case(json!({"count": out.n_best})));
+            } else if out.best != want {
+                rep.report("bestmove_not_from_last_completed_iteration:StopAtRead".to_string(), case(json!({"expected": want, "actual": out.best})));
+            }
+            if let (Some(b), Some(a)) = (&out.obs.before_fen, &out.obs.after_fen) {
+                if a != b {
+                    rep.report("position_altered_by_interrupted_search:StopAtRead".to_string(), case(json!({"before": b, "after": a})));
+                }
+            } else {
+                rep.machinery("board hook did not report before/after position");
+            }
+            let again = run_go(&mut s, "go depth 1", Plan::virtual_rate(0), &none);
+            s.quit();
+            if let Some(pr) = &again.problem {
+                rep.report(format!("go_after_interruption_gives_no_answer:{}", short(pr)), case(json!({"problem": pr})));
+                return;
+            }
+            match &again.best {
+                Some(b) if legal.contains(b) => {}
+                other => rep.report("go_after_interruption_plays_illegal_or_null_move:StopAtRead".to_string(), case(json!({"bestmove": other, "legal_moves": legal}))),
+            }
+            if again.score != fresh1.score {
+                rep.report("go_after_interruption_scores_differently_from_fresh_engine:StopAtRead".to_string(), case(json!({"score": format!("{:?}", again.score), "fresh": format!("{:?}", fresh1.score)})));
+            }
+        });
+    }
 }
 
 pub fn run_c09(tier: Tier) -> i32 {
     let started = Instant::now();
     let rep = Reporter::new("C09");
     let scs = c09_scenarios(tier);
-    let stats = C09Stats { runs: Default::default(), points: Default::default(), pairs: Default::default() };
+    let stats = C09Stats { runs: Default::default(), points: Default::default(), pairs: Default::default(), reads: Default::default() };
     let sample = std::sync::Mutex::new(Vec::new());
     for sc in &scs {
         c09_scenario(&rep, sc, tier, &stats, &sample);
@@ -277,6 +344,7 @@ pub fn run_c09(tier: Tier) -> i32 {
     cov.set("interruption_points", json!(stats.points.load(Ordering::Relaxed)));
     cov.set("runs_one_per_point_and_cause", json!(stats.runs.load(Ordering::Relaxed)));
     cov.set("consecutive_interruption_sequences", json!(stats.pairs.load(Ordering::Relaxed)));
+    cov.set("clock_read_interruption_points", json!(stats.reads.load(Ordering::Relaxed)));
     cov.set("real_interval_conformance_runs", json!(conf));
     cov.set("real_interval_secs", json!(t0.elapsed().as_secs_f64()));
     cov.set("explanation", json!("every negamax node after iteration 2 is an interruption point (poll interval lowered to 1 through the hook; iterations 1-2 cost < 100 000 nodes in the real build so no real poll can fall earlier); one run per point for each cause stop / quit / move-time expiry; pairs and triples of consecutive interrupted searches on a grid; plus runs with the original 100 000-node interval where every true poll index is stopped"));
@@ -358,13 +426,20 @@ pub fn replay_c09(case: &Value) -> i32 {
     let depth = case["depth"].as_u64().unwrap_or(3) as usize;
     let k = case["poll_index"].as_u64().or_else(|| case["poll_indices"][0].as_u64()).unwrap_or(1);
     let real = case["kind"] == "interrupt_real_interval";
+    let at_read = case["kind"] == "interrupt_at_read";
+    let scaled = case["scaled_polls"].as_bool().unwrap_or(true);
+    let k = if at_read { READ_GATE + case["read_index"].as_u64().unwrap_or(1) } else { k };
     let (n2, _) = dry_run(&pos_line, "go depth 2");
     let (_, fresh1) = dry_run(&pos_line, "go depth 1");
     let mut obs = Vec::new();
     for round in 0..2 {
         let mut s = Session::new(false);
         s.line(&pos_line);
-        let plan = Plan { poll: if real { None } else { Some((1, n2)) }, clock: Clock::Rate { ns_per_node: 0, jumps: vec![] }, gates: vec![k] };
+        let plan = if at_read {
+            Plan { poll: if scaled { Some((1, n2)) } else { None }, clock: Clock::Rate { ns_per_node: 1000, jumps: vec![(1, Duration::from_secs(2))] }, gates: vec![k] }
+        } else {
+            Plan { poll: if real { None } else { Some((1, n2)) }, clock: Clock::Rate { ns_per_node: 0, jumps: vec![] }, gates: vec![k] }
+        };
         let out = run_go(&mut s, &format!("go depth {}", depth), plan, &|kk| if kk == k { vec![GateAction::Stop] } else { vec![] });
         let again = run_go(&mut s, "go depth 1", Plan::virtual_rate(0), &none);
         s.quit();
